@@ -6,6 +6,7 @@ import (
 	"crypto/sha256"
 	"fmt"
 	"math/big"
+	"runtime"
 	"strconv"
 	"strings"
 
@@ -193,7 +194,9 @@ func c01probe(in c01in, txVersion uint64) (bool, int64) {
 	return err == nil, limit - left
 }
 
-func c01run(c *Ctx, t *c01tx) {
+var c01noConverter = func(prog []byte) ([]byte, error) { return nil, errors.New("no converter") }
+
+func c01prepare(t *c01tx) (*types.TxData, *bc.Tx) {
 	for i := range t.ins {
 		// BTM cannot be issued (an issuance's asset id is a hash of its program and definition)
 		if t.ins[i].kind == 'i' && t.ins[i].asset == 0 {
@@ -201,7 +204,34 @@ func c01run(c *Ctx, t *c01tx) {
 		}
 	}
 	td := t.build()
-	tx := types.MapTx(td)
+	return td, types.MapTx(td)
+}
+
+func c01single(tx *bc.Tx, block *bc.Block) (gs *validation.GasState, err error, panicked bool) {
+	defer func() {
+		if r := recover(); r != nil {
+			panicked = true
+		}
+	}()
+	gs, err = validation.ValidateTx(tx, block, c01noConverter)
+	return
+}
+
+func c01run(c *Ctx, t *c01tx) {
+	td, tx := c01prepare(t)
+	block := &bc.Block{BlockHeader: &bc.BlockHeader{Version: t.bv, Height: t.bh}}
+	if t.first {
+		block.Transactions = []*bc.Tx{tx}
+	} else {
+		block.Transactions = []*bc.Tx{types.MapTx(&types.TxData{Version: 1, SerializedSize: 1}), tx}
+	}
+	gs, err, panicked := c01single(tx, block)
+	c01emit(c, t, td, tx, gs, err, panicked)
+}
+
+// c01emit writes the op line (with the implementation's verdict as hint) and the result line,
+// and evaluates the property's direct oracle on the verdict.
+func c01emit(c *Ctx, t *c01tx, td *types.TxData, tx *bc.Tx, gs *validation.GasState, err error, panicked bool) {
 	// canonical entry-id classes
 	idOf := map[bc.Hash]int{}
 	ids := make([]int, len(tx.InputIDs))
@@ -211,23 +241,6 @@ func c01run(c *Ctx, t *c01tx) {
 		}
 		ids[i] = idOf[h]
 	}
-	block := &bc.Block{BlockHeader: &bc.BlockHeader{Version: t.bv, Height: t.bh}}
-	if t.first {
-		block.Transactions = []*bc.Tx{tx}
-	} else {
-		block.Transactions = []*bc.Tx{types.MapTx(&types.TxData{Version: 1, SerializedSize: 1}), tx}
-	}
-	var gs *validation.GasState
-	var err error
-	panicked := false
-	func() {
-		defer func() {
-			if r := recover(); r != nil {
-				panicked = true
-			}
-		}()
-		gs, err = validation.ValidateTx(tx, block, func(prog []byte) ([]byte, error) { return nil, errors.New("no converter") })
-	}()
 	fee := td.Fee()
 	var res, hint string
 	switch {
@@ -355,6 +368,199 @@ func minInt(a, b int) int {
 		return a
 	}
 	return b
+}
+
+// ---------------------------------------------------------------------------- batches (validation.ValidateTxs)
+
+// c01verdict is a canonical rendering of one validation result (error class + gas state).
+func c01verdict(gs *validation.GasState, err error) string {
+	if err != nil {
+		cl := c01class(err)
+		if cl == "gas" || cl == "unbalanced" {
+			// which of the two is reported depends on Go's map iteration order
+			cl = "gas|unbalanced"
+		}
+		return "err " + cl
+	}
+	return fmt.Sprintf("ok %d %d %d %d", gs.BTMValue, gs.GasLeft, gs.GasUsed, gs.StorageGas)
+}
+
+// c01batch validates the transactions TOGETHER with the real validation.ValidateTxs (the entry
+// point of block validation and of the proposer's pre-validation), in the given order on one
+// scheduler thread (GOMAXPROCS(1): the first worker goroutine drains the whole work channel, so
+// all transactions share one worker), in reverse order, and with the default parallelism.
+// Emits `reset-batch <n>` + one ordinary tx line per transaction whose result is the BATCH
+// verdict (compared with the single-transaction model), and checks on the implementation alone
+// that every batch verdict / GasState equals ValidateTx on that transaction alone.
+func c01batch(c *Ctx, ts []*c01tx) {
+	if len(ts) == 0 {
+		return
+	}
+	n := len(ts)
+	tds := make([]*types.TxData, n)
+	txs := make([]*bc.Tx, n)
+	for i, t := range ts {
+		t.bv, t.bh, t.first = ts[0].bv, ts[0].bh, i == 0
+		tds[i], txs[i] = c01prepare(t)
+	}
+	block := &bc.Block{BlockHeader: &bc.BlockHeader{Version: ts[0].bv, Height: ts[0].bh}, Transactions: txs}
+	// alone
+	single := make([]string, n)
+	for i := range txs {
+		gs, err, panicked := c01single(txs[i], block)
+		if panicked {
+			// a panic inside a ValidateTxs worker goroutine cannot be recovered: keep such
+			// transactions out of batches (they are covered by the single stream)
+			c.Count("batch/skipped-panicking-member")
+			return
+		}
+		single[i] = c01verdict(gs, err)
+	}
+	c.Op(fmt.Sprintf("reset-batch %d", n), "ok")
+	// one worker, given order
+	prev := runtime.GOMAXPROCS(1)
+	res := validation.ValidateTxs(txs, block, c01noConverter)
+	// one worker, reverse order
+	rtxs := make([]*bc.Tx, n)
+	for i := range txs {
+		rtxs[n-1-i] = txs[i]
+	}
+	rblock := &bc.Block{BlockHeader: block.BlockHeader, Transactions: rtxs}
+	if n > 1 {
+		// keep "first transaction of the block" the same transaction
+		rtxs[0], rtxs[n-1] = rtxs[n-1], rtxs[0]
+	}
+	rres := validation.ValidateTxs(rtxs, rblock, c01noConverter)
+	runtime.GOMAXPROCS(prev)
+	// default parallelism
+	pres := validation.ValidateTxs(txs, block, c01noConverter)
+	for i := range txs {
+		c01emit(c, ts[i], tds[i], txs[i], res[i].GetGasState(), res[i].GetError(), false)
+	}
+	c.Count(fmt.Sprintf("batch/size=%d", (n+9)/10*10))
+	for i := range txs {
+		j := n - 1 - i
+		if n > 1 && (j == 0 || j == n-1) {
+			j = n - 1 - j
+		}
+		for _, r := range []struct {
+			how string
+			v   string
+		}{
+			{"one worker, given order", c01verdict(res[i].GetGasState(), res[i].GetError())},
+			{"one worker, reverse order", c01verdict(rres[j].GetGasState(), rres[j].GetError())},
+			{"parallel", c01verdict(pres[i].GetGasState(), pres[i].GetError())},
+		} {
+			if r.v != single[i] {
+				c.Fail("batch-verdict-differs-from-single", fmt.Sprintf("tx #%d of a batch of %d (%s): ValidateTxs says %q, ValidateTx alone says %q", i, n, r.how, r.v, single[i]))
+				return
+			}
+		}
+	}
+}
+
+// siblings of a transaction: SAME inputs (same mux / spend / issuance entry ids), different
+// outputs, size, version or time range
+func c01sibling(c *Ctx, base *c01tx) *c01tx {
+	t := *base
+	t.ins = append([]c01in(nil), base.ins...)
+	t.outs = append([]c01out(nil), base.outs...)
+	t.label = "sibling"
+	pick := func() *c01out {
+		if len(t.outs) == 0 {
+			return nil
+		}
+		return &t.outs[c.Rng.Intn(len(t.outs))]
+	}
+	switch c.Rng.Intn(12) {
+	case 0:
+		if o := pick(); o != nil {
+			o.amount++
+		}
+	case 1:
+		if o := pick(); o != nil && o.amount > 0 {
+			o.amount--
+		}
+	case 2:
+		if o := pick(); o != nil {
+			o.amount = c01amount(c)
+		}
+	case 3:
+		if o := pick(); o != nil {
+			o.amount = o.amount*10000 + 1000000
+		}
+	case 4:
+		if o := pick(); o != nil {
+			o.asset = c.Rng.Intn(9)
+		}
+	case 5:
+		if len(t.outs) > 1 {
+			k := c.Rng.Intn(len(t.outs))
+			t.outs = append(t.outs[:k:k], t.outs[k+1:]...)
+		}
+	case 6:
+		t.outs = append(t.outs, c01out{kind: 'o', asset: c.Rng.Intn(9), amount: c01amount(c)})
+	case 7:
+		// a wrap-around multiset on one of the assets
+		if o := pick(); o != nil {
+			for _, v := range c01wrapParts(c, o.amount, 0) {
+				t.outs = append(t.outs, c01out{kind: 'o', asset: o.asset, amount: v})
+			}
+			o.amount = 0
+		}
+	case 8:
+		if o := pick(); o != nil {
+			o.kind, o.voteLen = 'v', []int{64, 64, 63}[c.Rng.Intn(3)]
+		}
+	case 9:
+		t.sizeSet, t.size = true, []uint64{1, 50, 100000, 1 << 40}[c.Rng.Intn(4)]
+	case 10:
+		// everything to one huge output per asset: value created
+		for i := range t.outs {
+			t.outs[i].amount = t.outs[i].amount + 1000000
+		}
+	default:
+		// identical twin (different id only through the time range)
+		t.tr = t.bh + uint64(1+c.Rng.Intn(5))
+	}
+	return &t
+}
+
+func c01genBatch(c *Ctx) []*c01tx {
+	var ts []*c01tx
+	target := 2 + c.Rng.Intn(39)
+	nBase := 1 + c.Rng.Intn(3)
+	for b := 0; b < nBase; b++ {
+		var base *c01tx
+		switch c.Rng.Intn(6) {
+		case 0:
+			base = c01wrap(c)
+		case 1:
+			base = c01valid(c)
+			c01mutate(c, base)
+		default:
+			base = c01valid(c)
+		}
+		base.first = false
+		ts = append(ts, base)
+		// a few exact twins of the base (so that every worker is likely to have seen it) and siblings
+		for k, n := 0, c.Rng.Intn(3); k < n; k++ {
+			tw := *base
+			ts = append(ts, &tw)
+		}
+		for k, n := 0, 1+c.Rng.Intn(1+target/nBase); k < n && len(ts) < target; k++ {
+			ts = append(ts, c01sibling(c, base))
+		}
+	}
+	c.Rng.Shuffle(len(ts), func(i, j int) { ts[i], ts[j] = ts[j], ts[i] })
+	if c.Rng.Intn(6) == 0 {
+		// the block's own coinbase transaction first
+		ts = append([]*c01tx{c01coinbase(c)}, ts...)
+	}
+	for _, t := range ts {
+		t.bv, t.bh = 1, 100
+	}
+	return ts
 }
 
 // ---------------------------------------------------------------------------- parsing (corpus / replay)
@@ -855,14 +1061,31 @@ func c01wild(c *Ctx) *c01tx {
 }
 
 func runC01(c *Ctx) {
-	c.Rule = "abstract transactions (1-12 inputs of kind spend/issuance/veto/coinbase, 0-12 outputs original/vote/retirement, <=6 assets incl. BTM, amounts from {0,1,small,2^31,2^62,2^63-1,2^63,2^64-1,random}) are turned into real types.TxData, mapped with MapTx and validated with validation.ValidateTx; 12% wrap-around multisets (k>=3 outputs and/or inputs of ONE asset, BTM or not, kinds original/vote/retirement and spend/issuance/veto mixed, every amount <= 2^63-1, whose TRUE sum crosses 2^63 or is 2^64*j + W while the other side totals exactly W, so that any unchecked uint64/int64 accumulation balances), 43% balanced-by-construction with a fee from a gas-relevant grid, 30% single-field mutations of those, 5% coinbase transactions, 10% unstructured; a case is distinct by its full abstract description"
+	c.Rule = "abstract transactions (1-12 inputs of kind spend/issuance/veto/coinbase, 0-12 outputs original/vote/retirement, <=6 assets incl. BTM, amounts from {0,1,small,2^31,2^62,2^63-1,2^63,2^64-1,random}) are turned into real types.TxData, mapped with MapTx and validated with validation.ValidateTx; 12% wrap-around multisets (k>=3 outputs and/or inputs of ONE asset, BTM or not, kinds original/vote/retirement and spend/issuance/veto mixed, every amount <= 2^63-1, whose TRUE sum crosses 2^63 or is 2^64*j + W while the other side totals exactly W, so that any unchecked uint64/int64 accumulation balances), 43% balanced-by-construction with a fee from a gas-relevant grid, 30% single-field mutations of those, 5% coinbase transactions, 10% unstructured; a case is distinct by its full abstract description; every 25th case is a BATCH of 2-40 transactions (1-3 base transactions, exact twins, and siblings with the SAME inputs but different outputs / amounts / size / time range: unbalanced, overflow, wrap-around, fee-changing variants) validated together by the real validation.ValidateTxs on one worker in two orders and with default parallelism: each batch verdict and GasState must equal ValidateTx on that transaction alone and the model's"
 	replaying := c.Replay != ""
 	lines := c.CorpusLines()
 	if replaying {
 		lines = c.ReplayLines()
 	}
-	for _, l := range lines {
-		t, err := c01parse(l)
+	for k := 0; k < len(lines); k++ {
+		w := strings.Fields(lines[k])
+		if len(w) == 2 && w[0] == "reset-batch" {
+			n, _ := strconv.Atoi(w[1])
+			var ts []*c01tx
+			for j := 0; j < n && k+1 < len(lines); j++ {
+				k++
+				if t, err := c01parse(lines[k]); err == nil {
+					ts = append(ts, t)
+				}
+			}
+			c01batch(c, ts)
+			continue
+		}
+		if len(w) > 0 && w[0] == "reset" {
+			c.Op("reset", "ok")
+			continue
+		}
+		t, err := c01parse(lines[k])
 		if err != nil {
 			continue
 		}
@@ -872,6 +1095,16 @@ func runC01(c *Ctx) {
 		return
 	}
 	for i := 0; i < c.N; i++ {
+		if i%40 == 0 {
+			// a cut point for replays (the stream is declared stateful because of the batches)
+			c.Op("reset", "ok")
+		}
+		if i%25 == 7 {
+			// ~4% of the cases are batches of 2-40 transactions through validation.ValidateTxs
+			c01batch(c, c01genBatch(c))
+			c.Op("reset", "ok")
+			continue
+		}
 		var t *c01tx
 		switch r := c.Rng.Intn(100); {
 		case r < 12:
